@@ -1,7 +1,7 @@
 """C06 - Boolean operators follow FHIRPath three-valued logic for every operand form."""
 from lib import driver as D, machine as M, nodetrace as NT
 
-MUTANTS = ["andFalseNeedsBoth", "orTrueNeedsBoth", "xorEmptyIsFalse", "impliesEmptyIsTrue"]
+MUTANTS = ["andFalseNeedsBoth", "existsStopsAtFirstTrue", "orTrueNeedsBoth", "xorEmptyIsFalse", "impliesEmptyIsTrue"]
 
 
 def run(ctx):
@@ -12,7 +12,7 @@ def run(ctx):
     cases = mc.records
     if len(cases) < 2000:
         raise D.Inconclusive("generator emitted only %d cases" % len(cases))
-    for m in (MUTANTS if ctx.tier == "thorough" else MUTANTS[:2]):
+    for m in (MUTANTS if ctx.tier == "thorough" else MUTANTS[:3]):
         D.mutant_twin(ctx, "C06_MC", "C06_mut_%s.cfg" % m, m)
     D.write_ndjson(ctx.path("cases.ndjson"), cases)
     # direction A: replay every case in the real code
@@ -34,7 +34,7 @@ def run(ctx):
         (binary, ["run", ctx.path("cases.ndjson"), ctx.path("obs_traced.ndjson")])])
     return D.finish(ctx, verdicts, by_id, evaluations=3 * len(obs),
                     rule="exhaustive: every (context, operator, left form, right form) with form = value class x source kind "
-                         "(28 expressible forms: true/false/empty/non-Boolean/multi-item/multi-item-of-Booleans x literal/element/computed/variable/function result; a multi-item literal cannot be written); distinct = (context, operator, value classes, outcome kind)",
+                         "(28 expressible forms: true/false/empty/non-Boolean/multi-item/multi-item-of-Booleans x literal/element/computed/variable/function result; a multi-item literal cannot be written), and where/exists/all over a two-item focus whose criterion is one focus-independent form on the first item and another on the second (14 x 14 ordered pairs); distinct = (context, operator, value classes, outcome kind)",
                     nontrivial_keys=keys, samples=[{"src": o["src"], "out": o["out"]} for o in obs[:: max(1, len(obs) // 5)]],
                     exhaustive=True,
                     assumptions=["operand forms are evaluated on model resource MR1 with the five environment variables the harness supplies"])
